@@ -13,7 +13,8 @@ S3Request
       request is finished at once with the CRT's cancel error (this stands for
       the CRT thread delivering the cancellation while shutdown() waits)
     * finish(error)   : what the CRT's _on_finish does, in the same order:
-      first the finished_future is resolved, then on_done(error=..., ...) runs.
+      first the finished_future is resolved (resolve), then
+      on_done(error=..., ...) runs (deliver).
       An exception escaping on_done is returned to the caller (the real CRT
       prints and swallows it on its own thread).
 """
@@ -103,9 +104,15 @@ class S3Request:
 
     def finish(self, error=None):
         """Resolve the request.  Returns the exception that escaped on_done, or None."""
+        self.resolve(error)
+        return self.deliver()
+
+    def resolve(self, error=None):
+        """First half of _on_finish: the finished_future gets its result."""
         if self.finished:
             raise RuntimeError('stub CRT: a request finishes once')
         self.finished = True
+        self._error = error
         hook = self._client.on_finish
         if hook is not None:
             hook(self, error)
@@ -113,6 +120,10 @@ class S3Request:
             self.finished_future.set_exception(error)
         else:
             self.finished_future.set_result(None)
+
+    def deliver(self):
+        """Second half of _on_finish: on_done(error=..., ...)."""
+        error = self._error
         on_done = self.kwargs.get('on_done')
         if on_done is None:
             return None
